@@ -113,7 +113,7 @@ class PStack:
     def skv_getattr(self, name):
         if name == "T":
             return self
-        if name == "view":
+        if name in ("view", "copy"):
             return PyFunc(lambda a, k, n: self)
         if name == "shape":
             return (5, 2)
@@ -141,6 +141,11 @@ class TStack:
     def __init__(self, parts):
         self.parts = parts
 
+    def skv_getattr(self, name):
+        if name == "shape":
+            return (3, Poly.sym("ncells"))   # a representative cell type
+        raise Unsupported("stacked connectivity." + name)
+
 
 def _joins(model, rep):
     R3 = "C18-R3"
@@ -158,7 +163,8 @@ def _joins(model, rep):
         if name == "numpy.ascontiguousarray":
             return args[0]
         if name in ("numpy.abs", "numpy.absolute", "numpy.round",
-                    "numpy.around") and isinstance(args[0], PStack):
+                    "numpy.around", "numpy.linalg.norm") and isinstance(
+                args[0], PStack):
             return args[0]
         if name == "numpy.cumsum":
             out, tot = [], Poly()
@@ -332,6 +338,32 @@ def _join_coordinates(model, rep):
         v = ("inv", 0) if v == AFF else v
     else:
         v = ev(keyarg[0])
+    # (c) the tolerance must lie below the size of the cells: a key scaled
+    # by the *extent* of the point cloud merges the distinct vertices of a
+    # graded mesh (cells of 1e-7 in a domain of 100).  Necessary condition:
+    # the key depends on the connectivity - without reading which vertices
+    # form a cell no tolerance can be known to keep them apart.
+    if keyarg and not (isinstance(keyarg[0], ast.Constant)
+                       and keyarg[0].value is None):
+        seen_, todo_, reads_t = set(), [keyarg[0]], False
+        while todo_:
+            e_ = todo_.pop()
+            for x in ast.walk(e_):
+                if isinstance(x, ast.Attribute) and x.attr == "t":
+                    reads_t = True
+                if isinstance(x, ast.Name) and x.id not in seen_:
+                    seen_.add(x.id)
+                    if x.id in defs:
+                        todo_.append(defs[x.id])
+        _v(rep, R3, reads_t, "Mesh.__add__:tolerance-below-cell-size",
+           "the merge key depends on the connectivity (scale taken from the "
+           "cells)", "Mesh.__add__",
+           "the merge key is computed from the point array alone: a "
+           "tolerance relative to the extent of the joined meshes (or any "
+           "quantity not derived from the cells) merges distinct vertices "
+           "of a graded mesh - MeshQuad.init_tensor(x, x) with x = [0] + "
+           "geomspace(1e-7, 100, 37) joined with its mirror image loses 705 "
+           "vertices and gets 690 cells of zero area", calls[0].lineno)
     _v(rep, R3, v in (("inv", 0), AFF), "Mesh.__add__:scale-free-key",
        "the key by which common vertices are found is unchanged by a "
        "translation of the operands and by a change of the unit of length",
@@ -1174,19 +1206,22 @@ MUTANTS = [
      (FM, "        return cls(*self._remove_duplicate_nodes(p, t, key=key))",
       "        return cls(*self._remove_duplicate_nodes(key, t))"), "C18-R3"),
     ("common vertices found by rounding the raw coordinates",
-     (FM, "        key = ((p - origin) / scale).round(decimals=8)",
+     (FM, "        key = ((p - origin) / scale).round(decimals=4)",
       "        key = p.round(decimals=8)"), "C18-R3"),
     ("merge tolerance relative to the distance from the origin",
-     (FM, "        scale = (p - origin).max() or 1.\n        key = ((p - "
-      "origin) / scale).round(decimals=8)",
-      "        scale = np.abs(p).max() or 1.\n        key = (p / "
-      "scale).round(decimals=8)"), "C18-R3"),
+     (FM, "        key = ((p - origin) / scale).round(decimals=4)",
+      "        key = (p / (np.abs(p).max() or 1.)).round(decimals=8)"),
+     "C18-R3"),
+    ("merge tolerance relative to the extent of the joined meshes",
+     (FM, "        key = ((p - origin) / scale).round(decimals=4)",
+      "        key = ((p - origin) / ((p - origin).max() or 1.))"
+      ".round(decimals=8)"), "C18-R3"),
     ("merge key keeps the offset of the meshes",
-     (FM, "        key = ((p - origin) / scale).round(decimals=8)",
-      "        key = (p / scale).round(decimals=8)"), "C18-R3"),
-    ("merge key rounded before the division by the extent",
-     (FM, "        key = ((p - origin) / scale).round(decimals=8)",
-      "        key = (p - origin).round(decimals=8) / scale"), "C18-R3"),
+     (FM, "        key = ((p - origin) / scale).round(decimals=4)",
+      "        key = (p / scale).round(decimals=4)"), "C18-R3"),
+    ("merge key rounded before the division by the cell size",
+     (FM, "        key = ((p - origin) / scale).round(decimals=4)",
+      "        key = (p - origin).round(decimals=4) / scale"), "C18-R3"),
     ("periodic quadrilateral meshes inherit the triangle split again",
      ("skfem/mesh/mesh_dg.py", "    def to_meshtri(self, *args, **kwargs):\n        raise NotImplementedError\n\n", ""), "C18-R2"),
     ("extrusion walks the levels in stored order",
@@ -1277,9 +1312,9 @@ MUTANTS = [
       "        t = np.hstack((self.t, other.t))"), "C18-R3"),
     ("join: points stacked in the other order",
      (FM, "        p = np.hstack((self.p, other.p))\n        t = np.hstack(("
-      "self.t, other.t + self.p.shape[1]))\n        # vertices agreeing",
+      "self.t, other.t + self.p.shape[1]))\n        # vertices closer",
       "        p = np.hstack((other.p, self.p))\n        t = np.hstack(("
-      "self.t, other.t + self.p.shape[1]))\n        # vertices agreeing"),
+      "self.t, other.t + self.p.shape[1]))\n        # vertices closer"),
      "C18-R3"),
     ("restrict maps subdomains without intersecting with the kept cells",
      (FM, "                k: newt[np.intersect1d(self.subdomains[k],\n"
@@ -1310,12 +1345,11 @@ TWINS = [
     ("to_meshtri builds boundary tags as int64",
      (_QU, "self.boundaries[k])]],\n                    dtype=np.int32)",
       "self.boundaries[k])]], dtype=np.int64)")),
-    ("merge key from the per-axis extent of the joined points",
-     (FM, "        scale = (p - origin).max() or 1.",
-      "        scale = (p.max(axis=1, keepdims=True) - origin).max() or 1.")),
+    ("merge scale from the edge vectors of the stacked cells",
+     (FM, "        pt = p[:, t]\n", "        pt = p[:, t].copy()\n")),
     ("merge key written with np.round",
-     (FM, "        key = ((p - origin) / scale).round(decimals=8)",
-      "        key = np.round((p - origin) / scale, 8)")),
+     (FM, "        key = ((p - origin) / scale).round(decimals=4)",
+      "        key = np.round((p - origin) / scale, 4)")),
     ("extrusion walks the sorted levels from the top",
      ("skfem/mesh/mesh_tri_1.py",
       "            for i, p in enumerate(np.sort(other.p[0])):",
